@@ -34,9 +34,12 @@ void TimedTaskScheduler::kickOffTask(std::shared_ptr<detail::TimedTaskImpl> next
   size_t remaining = next->timesToRun.fetch_sub(1, std::memory_order_acq_rel);
   if (remaining == 1) {
     auto* np = next.get();
-    np->func(std::move(next));
+    np->kickOff(std::move(next));
   } else if (remaining > 1) {
-    next->func(next);
+    if (!next->kickOff(next)) {
+      // Cancelled: there will be no further runs, don't requeue.
+      return;
+    }
 
     if (next->steady) {
       next->nextAbsTime += next->period;
